@@ -57,12 +57,12 @@ PROPS = {
     "C13": P(["sie"], 113,
              rule="Stale entries with validators; stale-if-error on the stored response, the request, both, neither; staleness around the window boundary; failure kinds transport error, reset in header, statuses 4xx/5xx; must-revalidate / no-cache variants.",
              require_probes=["sie-window-inside", "sie-window-outside"], technique="deterministic simulation with origin fault injection at validation time; virtual clock around the window boundary"),
-    "C14": P(["map"], 114, runs=(20000, 600000),
-             rule="One client, 6-70 operations (Set, Get, Delete, Keys(prefix), reopen, buffer mutation after Set / of the slice returned by Get, and the same through the expapi handlers) over adversarial key tables (lengths around 36/48/191/255 bytes, keys that are prefixes of other keys, bytes 0x00-0xFF, URL-shaped keys with '#', empty key), values 0..3000 bytes (1 MiB thorough), backends memory / file system / encrypted; refinement against a Go map after every step.",
-             require_probes=["C14/get-differs", "C14/keys-differs"], technique="deterministic simulation over a simulated disk: step-by-step refinement against a map model with reopen as an operation"),
-    "C15": P(["atomic", "atomic", "crashy"], 115, level="fault_enumeration", mode="mixed", runs=(8000, 300000), budget=(25, 600),
+    "C14": P(["map", "map", "recover"], 114, runs=(20000, 600000),
+             rule="One client, 6-70 operations (Set, Get, Delete, Keys(prefix), reopen, buffer mutation after Set / of the slice returned by Get, and the same through the expapi handlers) over adversarial key tables (lengths around 36/48/191/255 bytes, keys that are prefixes of other keys, bytes 0x00-0xFF, URL-shaped keys with '#', empty key), values 0..3000 bytes (1 MiB thorough), backends memory / file system / encrypted; refinement against a Go map after every step. Profile recover: 1-4 concurrent clients over such key tables - either each the only one to touch its key, fault-free (each key's operations are then one sequence, checked against the map), or sharing keys and usually killed or failed at a random disk call; the directory is then reopened and one client reads every key, lists, writes, deletes and lists again: the answers must be those of one map (listing = keys just read, nothing that was never a key, no error).",
+             require_probes=["C14/get-differs", "C14/keys-differs", "C14/recovered", "C14/disjoint"], technique="deterministic simulation over a simulated disk: step-by-step refinement against a map model with reopen as an operation"),
+    "C15": P(["atomic", "atomic", "crashy", "recover"], 115, level="fault_enumeration", mode="mixed", runs=(8000, 300000), budget=(25, 600),
              rule="(1) Cut-point sweep: value lengths {1,2,17,300,(4097)}, with and without a previous (shorter / longer) value, plain and encrypted: the write fails after every k in 0..len with ENOSPC / EIO or the process is killed after k bytes or at any operation boundary of the Set; restart; Get. (2) Interleavings: 2-4 clients x 2-6 operations on 1-2 keys, every disk call a yield point, writes split into chunks, random / sticky / PCT schedules, stalls, with and without the faults above. Oracles: torn-read (self-describing values) and porcupine register linearizability with nondeterministic outcome for failed or killed Sets.",
-             require_probes=["disk.crash@write", "disk.enospc@write", "C15/not-linearizable", "C15/served-torn"], technique="deterministic simulation: syscall-level interleaving + exhaustive write cut points / kill points; porcupine linearizability of recorded histories"),
+             require_probes=["disk.crash@write", "disk.enospc@write", "store.op-timeout", "C15/not-linearizable", "C15/served-torn"], technique="deterministic simulation: syscall-level interleaving + exhaustive write cut points / kill points; porcupine linearizability of recorded histories"),
     "C16": P(["conc"], 116, runs=(8000, 300000), budget=(20, 600), race=True,
              rule="2-4 clients on the same and different URIs and variants, GETs and unsafe methods, stale-while-revalidate entries so that background revalidations overlap the callers' use of returned responses, stall faults, callers poisoning the responses and requests they own. (a) sequential rules C01/C02/C04/C05 on every response, (b) snapshot of every returned header map at return vs end of run + poison tracking, (c) -race build with pairwise-parallel release of parked goroutines.",
              require_probes=["C16/returned-response-mutated", "C16/poison-leaked"], technique="deterministic simulation: seeded interleavings at seam granularity; ownership snapshots; Go race detector on pairwise-parallel steps"),
